@@ -1,10 +1,10 @@
 #!/bin/sh
-# usage: confirm_seed.sh <PROP> <mK>
+# usage: confirm_seed.sh <PROP> <mK> [<source root, default /tmp/seed_out> [<dest tag, e.g. r2>]]
 # Independently confirm a seeded change in a fresh scratch worktree:
 #   pristine: demo exits 0; patched (rebuilt): demo exits non-zero and the full test suite passes.
 # On success copy it to /verif/seeded/<PROP>-<mK>/ and write confirm.log there.
-P="$1"; M="$2"; SRC="/tmp/seed_out/$P/$M"; N="confirm_${P}_${M}"; WT="/tmp/wt/$N"
-LOG="/tmp/seed_out/$P/$M/confirm.log"; : > "$LOG"
+P="$1"; M="$2"; ROOT="${3:-/tmp/seed_out}"; TAG="$4"; SRC="$ROOT/$P/$M"; N="confirm_${P}_${TAG}${M}"; WT="/tmp/wt/$N"
+LOG="$SRC/confirm.log"; : > "$LOG"
 /verif/tools/mkwt.sh "$N" >/dev/null || { echo "$P $M: worktree failed"; exit 2; }
 # note: worktree is at /repo HEAD (includes fix: commits)
 run_demo() { (cd "$WT" && PYTHONPATH="$WT" timeout 300 /venv/bin/python "$SRC/demo.py" >>"$LOG" 2>&1); echo $?; }
@@ -20,5 +20,5 @@ ok=no
 if [ "$r0" = "0" ] && [ "$r1" != "0" ] && echo "$tests" | grep -q "passed" && ! echo "$tests" | grep -q "failed\|error"; then ok=yes; fi
 echo "$P $M: pristine=$r0 patched=$r1 tests=[$tests] confirmed=$ok"
 if [ "$ok" = yes ]; then
-  D="/verif/seeded/$P-$M"; mkdir -p "$D"; cp "$SRC/patch.diff" "$SRC/demo.py" "$D/"; cp "$SRC/notes.txt" "$D/notes.txt" 2>/dev/null; cp "$LOG" "$D/confirm.log"
+  D="/verif/seeded/$P-$TAG$M"; mkdir -p "$D"; cp "$SRC/patch.diff" "$SRC/demo.py" "$D/"; cp "$SRC/notes.txt" "$D/notes.txt" 2>/dev/null; cp "$LOG" "$D/confirm.log"
 fi
